@@ -34,7 +34,8 @@ _T = "TopSearch.Props.C20."
 REQUIRED = [_T + n for n in [
     "C20_bridge_box", "C20_bridge_steps", "C20_bridge_sample", "C20_bridge_rotation",
     "C20_std_step", "C20_atomic_move", "C20_rotation_rigid", "C20_dihedral_bonds",
-    "C20_bond_length_rigid", "C20_angle_rigid", "C20_box_predicates", "C20_molecular_angle_range",
+    "C20_dihedral_move_is_rigid", "C20_bond_length_rigid", "C20_angle_rigid", "C20_box_predicates",
+    "C20_box_predicates_lists", "C20_molecular_angle_range",
 ]]
 RULE = ("cases = one call of a predicate / move on the real class compared with the model: exact "
         "comparison for box predicates and scripted displacements (dyadic inputs), 1e-9 for the "
